@@ -12,6 +12,7 @@ import EqlModel.Registry
 import EqlModel.ForAll
 import EqlModel.Rules
 import EqlModel.Iter
+import EqlModel.Machine
 
 open Eql Eql.Sexp
 
@@ -78,14 +79,27 @@ def runQuery (args : List Sexp) : Option String := do
   | _ => pure ()
   let q : Query PVal := { sel := sel, cond := sc.map build }
   let spec := specRows W D (vars.map (·.1)) sel sc
+  -- L2: the cache- and de-dup-aware machine, two evaluations with caching on and two with caching off
+  let decl : List Nat := match field? "decl" args with
+    | some ds => ds.filterMap Sexp.nat?
+    | none => vars.map (·.1)
+  let P : Machine.Params PVal :=
+    { rank := fun v => (decl.idxOf v),
+      toKey := fun x => match x with | .obj i => i | _ => 0,
+      ofKey := fun i => .obj i }
+  let on1 := Machine.rowsM W D P true q []
+  let on2 := Machine.rowsM W D P true q on1.2
+  let off1 := Machine.rowsM W D P false q []
+  let off2 := Machine.rowsM W D P false q off1.2
+  let l2 := s!"\tM\t{renderRows on1.1}\t{renderRows on2.1}\t{renderRows off1.1}\t{renderRows off2.1}"
   if quant == "the" then
     let out := match runThe W D q with
       | .ok r => "ok " ++ renderRow r
       | .noSolution => "none"
       | .multipleSolutions => "multi"
-    return s!"{id}\tT\t{out}\tS\t{renderRows spec}\tB\t{(q.cond.map showCond).getD "-"}"
+    return s!"{id}\tT\t{out}\tS\t{renderRows spec}\tB\t{(q.cond.map showCond).getD "-"}{l2}"
   else
-    return s!"{id}\tR\t{renderRows (rows W D q)}\tS\t{renderRows spec}\tB\t{(q.cond.map showCond).getD "-"}"
+    return s!"{id}\tR\t{renderRows (rows W D q)}\tS\t{renderRows spec}\tB\t{(q.cond.map showCond).getD "-"}{l2}"
 
 -- ---------------------------------------------------------------- cache histories (C20)
 
